@@ -14,7 +14,8 @@ INFO = {
             "and no stream holds a backlog.",
     "bounds": "shapes {src->sink, src->xor->sink, src->xor->xor->sink, src->tee->2 sinks, src->resampler(1/2 | 2/1)->sink}; all add orders; "
               "source length 0..2*cap+1; capacity 1..2 samples.",
-    "outside": "larger graphs, other blocks, infinite sources (only via C07), longer data; MTGraph (C05 n/a).",
+    "outside": "larger graphs, other blocks, infinite sources (only via C07), longer data; MTGraph (C05 n/a). Sinks are harness-defined sample-only "
+               "sinks with VectorSink's verdict behaviour (VectorSink's tag storage costs CBMC > 25 min per run).",
     "stubs": ["Instant::now/elapsed, graph::get_cpu_time, thread::sleep, Graph::generate_stats, std::fmt::format (results never influence scheduling)",
               "heap ring + sync/map/sort stand-ins (C01)"],
     "assumptions": ["Kani/CBMC soundness", "reference results computed in the harness from the block documentation"],
